@@ -7,6 +7,7 @@ import os
 import numpy as np
 
 from .model import Ref, AXNAME, canon_md, plain
+from .world import Violation
 from .observe import Snap, diff_ref, md_equal, coherence
 from .probes import probe
 from . import store
@@ -363,7 +364,17 @@ def c03_tsv(w, ev, slot):
                     lines.pop()          # as readlines()/splitlines() would
                 if b & 8:
                     lines = [ln + '\n' for ln in lines]
+                given = list(lines)
                 t2 = Table.from_tsv(lines, None, None, proc)
+                if lines != given:
+                    w.fail('c03.input_changed', 'from_tsv changed the list '
+                           'of lines it was given (%d lines became %d)'
+                           % (len(given), len(lines)))
+                if b & 16:
+                    # the same list object imported once more (history)
+                    _cmp_tsv(w, t2, ref, cat, name, what)
+                    t2 = Table.from_tsv(lines, None, None, proc)
+                    what += ' second import of the same list'
             elif route == 1:
                 t2 = Table.from_tsv(io.StringIO(text), None, None, proc)
             elif route == 2:
@@ -385,6 +396,8 @@ def c03_tsv(w, ev, slot):
                     f.write(text.encode('utf8'))
                 t2 = biom.load_table(path)
                 os.unlink(path)
+        except Violation:
+            raise
         except Exception as e:  # noqa
             if path and os.path.exists(path):
                 os.unlink(path)
